@@ -2,7 +2,9 @@
    and the sequence of calls of the exported Fragmentation.Process made on it, each with what the
    implementation returned (done, bytes, Size() of the returned view, panicked) and a read-only
    snapshot taken after the call (f.size, len(f.reassemblers), ids in rList order).  [judge] is
-   evaluated by vm_compute.
+   evaluated by vm_compute.  Concurrent delivery: [CConc] = one Fragmentation, K goroutines' call
+   lists and a CONTROLLED schedule of mutex-protected phases with a snapshot after every step,
+   compared with Model/FragConc.v; [CStress] = outcome of uncontrolled goroutines (monitor only).
 
    Byte strings are written as lists of segments so that 64 KB payloads stay cheap to parse:
    [Raw l] is the literal bytes, [Pat salt off len] is the position-dependent test pattern
@@ -10,7 +12,7 @@
    run-length encodes what the implementation returned against it; the encoding is lossless, any
    byte that does not match is emitted as Raw). *)
 From Coq Require Import ZArith Bool List.
-From NP Require Import Model.Frag.
+From NP Require Import Model.Frag Model.FragConc.
 Import ListNotations.
 Open Scope Z_scope.
 
@@ -45,7 +47,19 @@ Inductive case :=
    high/low/timeout = arguments of NewFragmentation (timeout in [now] units); dgs = id -> datagram *)
 | CRun (kind high low timeout : Z) (dgs : list (Z * list seg)) (ops : list op)
 (* hash.Hash3Words(a, b, c, initval) = r *)
-| CHash (a b c iv r : Z).
+| CHash (a b c iv r : Z)
+(* concurrent delivery under a CONTROLLED schedule (harness/cmd/h_c08/conc.go): kind 5 exhaustive /
+   sampled interleavings of 2 goroutines on one id, 6 random 3-goroutine schedules, 7 with
+   reassembly timeouts ([now] = burst number of the call's phase-1 step, timeout 0), 8 small
+   limits.  progs = per goroutine its calls with what the implementation returned; steps = the
+   schedule, one entry per granted phase, with the snapshot taken after it *)
+| CConc (kind high low timeout : Z) (dgs : list (Z * list seg)) (progs : list (list cop)) (steps : list cstepobs)
+(* UNCONTROLLED stress outcome (plain goroutines; [count] rounds ended like this): goes through
+   the monitor only, corr = 0 by construction *)
+| CStress (high low : Z) (dgs : list (Z * list seg)) (progs : list (list cop)) (count : Z)
+(* status: 0 returned not done, 1 returned done, 2 panicked (or hung), 3 never started *)
+with cop := COp (id first last : Z) (more : bool) (pl : list seg) (now : Z) (status : Z) (ret : list seg) (rsize : Z)
+with cstepobs := CS (t fsize nmap : Z) (lids : list Z).
 
 Fixpoint list_eqb (a b : list Z) : bool :=
   match a, b with
@@ -87,10 +101,61 @@ Fixpoint corr_ops (f : fstate) (ops : list xop) : Z :=
 Definition corr_run (high low timeout : Z) (xo : list xop) : Z :=
   corr_ops (newFragmentation high low timeout) xo.
 
+(* ---- concurrent runs: the model Model/FragConc.v on the same programs and the same schedule.
+   After EVERY step the model's (f.size, number of map entries, ids in list order) must be the
+   snapshot; at the end every goroutine's sequence of results (bytes, done, panicked) must be the
+   model's sequence of return / panic events of that thread. *)
+Inductive xcop := XCop (id first last : Z) (more : bool) (pl : list Z) (now : Z) (status : Z) (ret : list Z) (rsize : Z).
+Definition expand_cop (o : cop) : xcop :=
+  match o with COp id first last more pl now status ret rsize => XCop id first last more (bytes_of pl) now status (bytes_of ret) rsize end.
+Definition call_of (o : xcop) : call :=
+  match o with XCop id first last more pl now _ _ _ => mkCall id first last more pl now end.
+
+Fixpoint corr_steps (cf : conf) (steps : list cstepobs) : option conf :=
+  match steps with
+  | [] => Some cf
+  | CS t fsize nmap lids :: r =>
+      let cf' := cstep rprocess cf (Z.to_nat t) in
+      let s := cf_s cf' in
+      if (c_size s =? fsize) && (Z.of_nat (length (c_map s)) =? nmap)
+         && list_eqb (map (fun o => r_id (getobj s o)) (c_list s)) lids
+      then corr_steps cf' r else None
+  end.
+
+(* what the implementation reported for the calls of one goroutine that were started *)
+Fixpoint impl_results (p : list xcop) : list (list Z * bool * bool) :=
+  match p with
+  | [] => []
+  | XCop _ _ _ _ _ _ status ret _ :: t =>
+      if status =? 3 then impl_results t
+      else (ret, status =? 1, status =? 2) :: impl_results t
+  end.
+Fixpoint results_eqb (a b : list (list Z * bool * bool)) : bool :=
+  match a, b with
+  | [], [] => true
+  | (r1, d1, p1) :: a', (r2, d2, p2) :: b' => list_eqb r1 r2 && Bool.eqb d1 d2 && Bool.eqb p1 p2 && results_eqb a' b'
+  | _, _ => false
+  end.
+Definition model_results (t : nat) (tr : list ev) : list (list Z * bool * bool) :=
+  map snd (filter (fun e => (fst e =? t)%nat) (rets tr)).
+Fixpoint corr_threads (t : nat) (xp : list (list xcop)) (tr : list ev) : bool :=
+  match xp with
+  | [] => true
+  | p :: r => results_eqb (impl_results p) (model_results t tr) && corr_threads (S t) r tr
+  end.
+
+Definition corr_conc (high low timeout : Z) (xp : list (list xcop)) (steps : list cstepobs) : Z :=
+  match corr_steps (cinit high low timeout (map (map call_of) xp)) steps with
+  | None => 1
+  | Some cf => if corr_threads 0 xp (trace (cf_s cf)) then 0 else 1
+  end.
+
 Definition corr (c : case) : Z :=
   match c with
   | CRun _ high low timeout _ ops => corr_run high low timeout (map expand_op ops)
   | CHash a b c iv r => if hash3words a b c iv =? r then 0 else 1
+  | CConc _ high low timeout _ progs steps => corr_conc high low timeout (map (map expand_cop) progs) steps
+  | CStress _ _ _ _ _ => 0
   end.
 
 (* ---------------------------------------------------------------- spec: property monitor
@@ -197,14 +262,69 @@ Definition spec_run (kind high low timeout : Z) (xd : list (Z * (list Z * Z))) (
   else if kind =? 3 then spec_consistent false high low timeout xd [] xo
   else spec_any high low xo.
 
+(* ---- concurrent runs: the monitor, on the implementation's observations only (written from the
+   property text, independent of Model/FragConc.v):
+   - no call panicked (or hung);
+   - a call returns bytes only with done, and Size() is the number of bytes;
+   - every call's id has a datagram D in dgs and the call is a consistent fragment of D (the
+     generator's promise); a call that returned done returned exactly D;
+   - the number of calls on an id that returned done is at most the number of complete fragment
+     sets the started calls on that id can supply: the least multiplicity with which a byte position of
+     [0,|D|) is covered by them (each fragment is handed to exactly one reassembler, a delivery needs
+     every position covered inside one reassembler).  The multiplicity is piecewise constant with
+     breakpoints at the fragments' firsts and last+1s, so it is evaluated there and at 0.  With the
+     duplicate-of-the-completing-fragment shapes the bound is 1: "at most one call returned done";
+   - every snapshot: f.size >= 0, the map has as many entries as the list, list ids pairwise distinct. *)
+Definition xc_id (o : xcop) : Z := match o with XCop id _ _ _ _ _ _ _ _ => id end.
+Definition xc_status (o : xcop) : Z := match o with XCop _ _ _ _ _ _ st _ _ => st end.
+Definition mult_at (calls : list xcop) (x : Z) : Z :=
+  fold_right (fun o acc => match o with XCop _ first last _ _ _ st _ _ =>
+                if negb (st =? 3) && (first <=? x) && (x <=? last) then 1 + acc else acc end) 0 calls.
+Definition min_mult (calls : list xcop) (n : Z) : Z :=
+  let cands := 0 :: flat_map (fun o => match o with XCop _ first last _ _ _ _ _ _ => [first; last + 1] end) calls in
+  fold_right (fun x acc => if (0 <=? x) && (x <? n) then Z.min acc (mult_at calls x) else acc) (mult_at calls 0) cands.
+Definition count_done (calls : list xcop) : Z :=
+  fold_right (fun o acc => if xc_status o =? 1 then 1 + acc else acc) 0 calls.
+
+Definition call_okb (dgs : list (Z * (list Z * Z))) (o : xcop) : bool :=
+  match o with
+  | XCop id first last more pl _ st ret rsize =>
+      match dg_lookup id dgs with
+      | None => false
+      | Some (D, n) =>
+          is_frag_of D n first last more pl
+          && negb (st =? 2)
+          && ((st =? 3) || (zlen ret =? rsize))
+          && (negb (st =? 0) || list_eqb ret [])
+          && (negb (st =? 1) || list_eqb ret D)
+          && (negb (st =? 3) || list_eqb ret [])
+      end
+  end.
+
+Definition id_okb (calls : list xcop) (d : Z * (list Z * Z)) : bool :=
+  let mine := filter (fun o => xc_id o =? fst d) calls in
+  count_done mine <=? min_mult mine (snd (snd d)).
+
+Definition snap_okb (st : cstepobs) : bool :=
+  match st with CS _ fsize nmap lids => (0 <=? fsize) && (Z.of_nat (length lids) =? nmap) && nodupb lids end.
+
+Definition spec_conc (xd : list (Z * (list Z * Z))) (xp : list (list xcop)) (steps : list cstepobs) : Z :=
+  let calls := concat xp in
+  if forallb (call_okb xd) calls && forallb (id_okb calls) xd && forallb snap_okb steps then 0 else 1.
+
 Definition spec (c : case) : Z :=
   match c with
   | CRun kind high low timeout dgs ops => spec_run kind high low timeout (expand_dgs dgs) (map expand_op ops)
   | CHash a b c iv r => if (0 <=? r) && (r <? 2^32) then 0 else 1
+  | CConc _ _ _ _ dgs progs steps => spec_conc (expand_dgs dgs) (map (map expand_cop) progs) steps
+  | CStress _ _ dgs progs _ => spec_conc (expand_dgs dgs) (map (map expand_cop) progs) []
   end.
 
 (* tag: 0 = trivial (no call); kind (1..4) when no call returned a datagram; kind + 4 (5..8) when
-   at least one did; 9 = Hash3Words *)
+   at least one did; 9 = Hash3Words; controlled concurrent runs: 10 + 2*(kind-5) (10, 12, 14, 16) when
+   nothing was delivered, +1 (11, 13, 15, 17) when a datagram was; 18 = uncontrolled stress outcome *)
+Definition any_cdone (progs : list (list cop)) : bool :=
+  existsb (existsb (fun o => match o with COp _ _ _ _ _ _ st _ _ => st =? 1 end)) progs.
 Definition any_done (ops : list op) : bool :=
   existsb (fun o => match o with Op _ _ _ _ _ _ done _ _ _ _ _ _ => done end) ops.
 Definition tag (c : case) : Z :=
@@ -212,6 +332,9 @@ Definition tag (c : case) : Z :=
   | CRun kind _ _ _ _ ops =>
       match ops with [] => 0 | _ => if any_done ops then kind + 4 else kind end
   | CHash _ _ _ _ _ => 9
+  | CConc kind _ _ _ _ progs steps =>
+      match steps with [] => 0 | _ => 10 + 2 * (kind - 5) + (if any_cdone progs then 1 else 0) end
+  | CStress _ _ _ _ _ => 18
   end.
 
 (* judge c = [corr c; spec c; tag c], with the byte strings of a run expanded once *)
@@ -221,6 +344,10 @@ Definition judge (c : case) : list Z :=
       let xo := map expand_op ops in
       [corr_run high low timeout xo; spec_run kind high low timeout (expand_dgs dgs) xo; tag c]
   | CHash _ _ _ _ _ => [corr c; spec c; tag c]
+  | CConc kind high low timeout dgs progs steps =>
+      let xp := map (map expand_cop) progs in
+      [corr_conc high low timeout xp steps; spec_conc (expand_dgs dgs) xp steps; tag c]
+  | CStress _ _ _ _ _ => [corr c; spec c; tag c]
   end.
 Lemma judge_eq : forall c, judge c = [corr c; spec c; tag c].
 Proof. destruct c; reflexivity. Qed.
